@@ -7,6 +7,7 @@ import P2PVerif.Driver.Addr
 import P2PVerif.Driver.Frag
 import P2PVerif.Driver.Ke
 import P2PVerif.Driver.KeT
+import P2PVerif.Driver.DHTNode
 import P2PVerif.Driver.Hub
 import P2PVerif.Driver.Stack
 open P2PVerif.Driver
@@ -20,6 +21,7 @@ def streams : List (String × Stream) := [
   ("frag", fragStream),
   ("ke", keStream),
   ("ket", ketStream),
+  ("node", nodeStream),
   ("hub", hubStream),
   ("stack", stackStream),
   ("replay", replayStream)
